@@ -154,6 +154,23 @@ def gen_condition(rng, snap, prefix):
             def pred(e, c1=c1, c2=c2, op=op):
                 return model.compare("int", op, model.col_value(e, c1, prefix)[1], model.col_value(e, c2, prefix)[1])
             return "%s %s %s" % (c1, op, c2), pred, ("colcol-int", model.canon_op(op), "x")
+        if rng.random() < 0.6:
+            # pattern operators whose pattern is another column of the same entry: one pattern per entry
+            c1, c2 = rng.choice([("name", "ext"), ("path", "name"), ("path", "dir"), ("name", "name"), ("path", "ext"), ("dir", "ext")])
+            op = rng.choice(["=~", "!=~", "rx", "notrx", "like", "notlike", "not like", "=", "!="])
+
+            def pred(e, c1=c1, c2=c2, op=op):
+                pat = model.col_value(e, c2, prefix)[1]
+                if model.canon_op(op) in ("=~", "!=~"):
+                    try:
+                        import re as _re
+                        _re.compile(pat)
+                    except _re.error:
+                        return model.UNDEF
+                    if any(ch in pat for ch in "{}[]()\\|"):
+                        return model.UNDEF      # outside the regex sub-language both engines agree on
+                return model.compare("text", op, model.col_value(e, c1, prefix)[1], pat)
+            return "%s %s %s" % (c1, op, c2), pred, ("colcol-pattern", model.canon_op(op), c2)
         c1, c2 = rng.sample(["name", "ext", "path", "dir"], 2)
         op = rng.choice(["===", "!==", "eeq", "ene"])
 
